@@ -8,5 +8,8 @@ PROPERTIES = {
     "C13": ["contracts.c13"],
     "C20": ["contracts.c20"],
     "C11": ["contracts.c11"],
+    "C19": ["contracts.c19"],
+    "C15": ["contracts.c19"],
+    "C05": ["contracts.c05", "contracts.c16"],
     "C14": ["contracts.c14", "contracts.c20", "contracts.c01"],
 }
